@@ -163,3 +163,13 @@ Example C03_collection_progress_nonvacuous :
   | _ => False
   end.
 Proof. vm_compute. split; [reflexivity|discriminate]. Qed.
+
+(* array requests (collection over the intrusive list): allocate_array of any supported element size is described in every state
+   the invariant holds in -- after its three growth stages no assertion is reachable: the default reservation and the
+   reservation of the array's own size both fit into a fresh block whenever the size check lets them through, and the freshly
+   inserted nodes contain the run the final search needs -- and the invariant holds afterwards *)
+Theorem C03_collection_exec_allocate_array_always_described : forall log2 s sp size bytes a1 a2, UCPR s sp -> UExt log2 s -> 0 < size <= cc_max _ s -> size <= bytes ->
+  uarray_answers_ok64 log2 s sp size a1 a2 ->
+  exists s' r evs, uc_step log2 s (CAllocArray size bytes a1 a2) = Some (s', r, evs) /\ UExt log2 s'.
+Proof. exact ucoll_alloc_array_progress. Qed.
+Print Assumptions C03_collection_exec_allocate_array_always_described.
